@@ -1,6 +1,7 @@
 # octets.py -- helpers shared by the C11 and C12 checks (iox octets codec): case syntax,
 # result parsing, an independent Python reference encoder/decoder, a parallel model runner.
 import os
+import resource
 import struct
 import subprocess
 
@@ -91,6 +92,20 @@ def parse_rds(field):
 
 
 # ---------------------------------------------------------------- running both sides
+def _big_stack():
+    # the extracted list functions are not tail recursive: a 2^21-byte string needs a deep C stack
+    try:
+        soft, hard = resource.getrlimit(resource.RLIMIT_STACK)
+        want = 4 << 30
+        if hard != resource.RLIM_INFINITY:
+            want = min(want, hard)
+        if soft == resource.RLIM_INFINITY or soft >= want:
+            return
+        resource.setrlimit(resource.RLIMIT_STACK, (want, hard))
+    except Exception:
+        pass
+
+
 def run_model_parallel(lines, nproc=None, timeout=1800):
     """Same contract as common.run_model, but the cases are split over several driver
     processes (the extracted model is pure, each line is independent)."""
@@ -113,7 +128,7 @@ def run_model_parallel(lines, nproc=None, timeout=1800):
         outp = os.path.join(td, "m%d.out" % k)
         with open(inp, "w") as f:
             f.write("\n".join(ch) + "\n")
-        procs.append((subprocess.Popen([drv], stdin=open(inp), stdout=open(outp, "w"), stderr=subprocess.PIPE), outp, len(ch)))
+        procs.append((subprocess.Popen([drv], stdin=open(inp), stdout=open(outp, "w"), stderr=subprocess.PIPE, preexec_fn=_big_stack), outp, len(ch)))
     out = []
     for p, outp, n in procs:
         _, err = p.communicate(timeout=timeout)
